@@ -202,3 +202,214 @@ def main(tier, seed, only=None):
   units = [unit_kernel(n) for n in names]
   rule = "one evaluation = one SMT query per kernel: 'two distinct threads of one launch access the same cell, one of them with a non-atomic write (different value for write/write)' must be unsat; the query is a disjunction over all pairs of accesses of the two symbolically executed threads; trivial = no candidate pair survives syntactic simplification"
   return report.run_check(PID, units, tier, seed, rule=rule, unit_timeout=120 if tier == "quick" else 900, on_timeout=lambda n: "error" if (listed and n in listed) else "skip")
+
+
+# ------------------------------------------------------------------------------------------------------------------------
+# schedule units: the tree-structured smooth-dynamics stages under different serial thread orders.
+# Their order-independence rests on layout tables put_model derives with numpy (tree levels, root-to-leaf branches);
+# instead of assuming a contract for those tables the REAL tables of the current tree are used: the real host stages are
+# run in the interpreter on fork-shaped models, once per thread order, with every cell they write holding a symbolic stale
+# value (what an earlier step left there).  Every result must be the same term in all orders (a thread that consumes
+# another thread's output of the same launch shows up as a stale symbol in one order and a value in the other).
+
+SCHED_MODELS = {
+  "fork": """<mujoco><option gravity="0 0 -9.81"/><worldbody>
+<body name="trunk" pos="0 0 1"><joint name="j0" axis="0 1 0"/><geom size=".1" mass="1"/>
+  <body name="l1" pos=".3 0 0"><joint name="j1" axis="0 1 0"/><geom size=".08" mass=".5"/>
+    <body name="l2" pos=".3 0 0"><joint name="j2" type="slide" axis="1 0 0"/><geom size=".05" mass=".2"/></body></body>
+  <body name="r1" pos="-.3 0 0"><joint name="j3" axis="1 0 0"/><geom size=".08" mass=".5"/>
+    <body name="r2" pos="-.3 0 .1"><joint name="j4" type="ball"/><geom size=".05" mass=".2"/></body></body></body>
+<body name="free" pos="2 0 1"><freejoint/><geom size=".1" mass="1"/><body pos=".2 0 0"><joint axis="0 0 1"/><geom size=".05" mass=".1"/></body></body>
+</worldbody></mujoco>""",
+}
+SCHED_STAGES = ["kinematics", "com_pos", "crb", "com_vel", "rne"]
+
+
+def _sched_build(mname):
+  import mujoco
+  import numpy as np
+
+  import mujoco_warp as mjw
+
+  mjm = mujoco.MjModel.from_xml_string(SCHED_MODELS[mname])
+  mjd = mujoco.MjData(mjm)
+  rng = np.random.default_rng(3)
+  mjd.qpos[:] = mjd.qpos + 0.3 * rng.standard_normal(mjm.nq)
+  for j in range(mjm.njnt):
+    if mjm.jnt_type[j] in (0, 1):
+      a = mjm.jnt_qposadr[j] + (3 if mjm.jnt_type[j] == 0 else 0)
+      mjd.qpos[a : a + 4] /= np.linalg.norm(mjd.qpos[a : a + 4])
+  mjd.qvel[:] = 0.5 * rng.standard_normal(mjm.nv)
+  mujoco.mj_forward(mjm, mjd)
+  m = mjw.put_model(mjm)
+  d = mjw.put_data(mjm, mjd, nworld=1)
+  return mjm, mjd, m, d
+
+
+def _sched_run(m, d, order, wmasks=None):
+  """-> (arrays dict, HostRun).  wmasks None: concrete pass with write tracking."""
+  from mujoco_warp._src import smooth
+  from wsym import host
+
+  d2 = host.shim_dataclass(d, "d.", symbolic=lambda n: False)
+  arrs = host.arrays_of(d2)
+  if wmasks is None:
+    for a in arrs.values():
+      a.ref.cell.wmask = [False] * a.ref.cell.size
+  else:
+    for n, a in arrs.items():
+      c = a.ref.cell
+      wm = wmasks.get(n)
+      if not wm or n in ("qpos", "qvel", "qacc", "time", "mocap_pos", "mocap_quat"):
+        continue
+      for f in range(c.size):
+        if wm[f]:
+          for kk in range(c.ncomp):
+            c.d[kk][f] = z3.Const(f"stale:{n}{list(c.unflat(f))}" + (f"#{kk}" if c.ncomp > 1 else ""), c.sort)
+      c.d0 = [list(x) for x in c.d]
+  with host.HostRun(mode="exec", order=order, max_threads=100000) as hr:
+    for st in SCHED_STAGES:
+      getattr(smooth, st)(m, d2)
+  return arrs, hr
+
+
+def unit_schedule(mname, order_name):
+  def run(ctx):
+    import numpy as np
+
+    from mujoco_warp._src import smooth
+
+    order = {"rev": "rev", "rot": (lambda t: t[len(t) // 2 :] + t[: len(t) // 2]), "evenodd": (lambda t: t[1::2] + t[0::2])}[order_name]
+    mjm, mjd, m, d = _sched_build(mname)
+    for st in SCHED_STAGES:
+      ctx.encode(getattr(smooth, st))
+    ctx.bound(model=mname, nbody=int(mjm.nbody), nv=int(mjm.nv), nworld=1, order=order_name, stages=",".join(SCHED_STAGES))
+    ctx.assume("integration state concrete; every cell the stages write holds an arbitrary (symbolic) stale value beforehand", "thread orders compared: ascending vs " + order_name + " (serial schedules of each launch)", "float sums reordered by atomic adds compared with 1e-9 relative tolerance when both orders are concrete")
+    arrs0, hr0 = _sched_run(m, d, "asc", None)
+    wm = {n: list(a.ref.cell.wmask) for n, a in arrs0.items()}
+    A, hA = _sched_run(m, d, "asc", wm)
+    B, hB = _sched_run(m, d, order, wm)
+    for e in hA.events:
+      if e.kind == "launch":
+        ctx.encode(e.kernel)
+    sess = ctx.session([core.zbool(x) for x in hA.assumes + hB.assumes])
+    ctx.reach(sess, "twin:run", True)
+    nconc = 0
+    for n in A:
+      ca, cb = A[n].ref.cell, B[n].ref.cell
+      if ca.size == 0 or not any(wm.get(n, [])):
+        continue
+      goals = []
+      for kk in range(ca.ncomp):
+        for f in range(ca.size):
+          if not wm[n][f]:
+            continue
+          x, y = ca.d[kk][f], cb.d[kk][f]
+          if not is_sym(x) and not is_sym(y):
+            nconc += 1
+            if isinstance(x, float) or isinstance(y, float):
+              ok = abs(float(x) - float(y)) <= 1e-9 * (1.0 + abs(float(x)) + abs(float(y)))
+            else:
+              ok = x == y
+            if not ok:
+              goals.append(z3.BoolVal(False))
+            continue
+          goals.append(core.zbool(cmp("==", x, y)))
+      if not goals:
+        res = kh.QResult(f"same-result/{n}", "unsat", 0.0)
+        res.trivial = True
+        ctx._rec(res)
+        continue
+      ctx.prove(sess, f"same-result/{n}", z3.And(*goals), True, replay=_sched_replay(mname, order_name, n), desc=f"smooth-dynamics stages give a different {n} when the threads of each launch run in '{order_name}' order instead of ascending (a thread consumes what another thread of the same launch writes)")
+    ctx.notes.append(f"{nconc} result cells concrete in both orders; {hA.nthreads}+{hB.nthreads} threads interpreted")
+
+  return (f"schedule/{mname}/{order_name}", run)
+
+
+class OrderedRealRun:
+  """run real host code with every wp.launch replaced by single-thread launches of the REAL compiled kernel in a given order"""
+
+  def __init__(self, order):
+    self.order = order
+    self.cache = {}
+
+  def __enter__(self):
+    import itertools
+
+    import numpy as np
+    import warp as wp
+
+    self.wp = wp
+    self.orig = wp.launch
+    me = self
+
+    def launch(kernel, dim, inputs=(), outputs=(), **kw):
+      d = (int(dim),) if isinstance(dim, (int, np.integer)) else tuple(int(x) for x in dim)
+      if kernel.key not in me.cache:
+        me.cache[kernel.key] = replay.single_thread_kernel(kernel)
+      st, nd = me.cache[kernel.key]
+      tids = list(itertools.product(*[range(n) for n in d]))
+      if me.order == "rev":
+        tids.reverse()
+      elif callable(me.order):
+        tids = list(me.order(tids))
+      args = list(inputs or ()) + list(outputs or ())
+      for t in tids:
+        tt = list(t)[:nd] + [0] * max(0, nd - len(t))
+        me.orig(st, dim=1, inputs=args + [int(x) for x in tt])
+
+    wp.launch = launch
+    return self
+
+  def __exit__(self, *a):
+    self.wp.launch = self.orig
+    return False
+
+
+def _sched_replay(mname, order_name, arrname):
+  def _rp(model):
+    import json
+
+    import numpy as np
+
+    import mujoco_warp as mjw
+    from mujoco_warp._src import smooth
+
+    order = {"rev": "rev", "rot": (lambda t: t[len(t) // 2 :] + t[: len(t) // 2]), "evenodd": (lambda t: t[1::2] + t[0::2])}[order_name]
+    res = []
+    for o in ("asc", order):
+      mjm, mjd, m, d = _sched_build(mname)
+      # stale leftovers of a different earlier state: every float result array shifted
+      for n in ("xpos", "xquat", "xmat", "xipos", "ximat", "xanchor", "xaxis", "subtree_com", "cinert", "cdof", "cvel", "cdof_dot", "cacc", "cfrc_int", "crb", "qfrc_bias"):
+        a = getattr(d, n, None)
+        if a is not None and a.size:
+          a.assign(a.numpy() * 0.5 + 0.25)
+      with OrderedRealRun(o):
+        for st in SCHED_STAGES:
+          getattr(smooth, st)(m, d)
+      res.append(getattr(d, arrname).numpy().copy())
+    same = np.allclose(res[0], res[1], rtol=1e-5, atol=1e-6, equal_nan=True)
+    os.makedirs(os.path.join(report.VERIF, "replays", PID), exist_ok=True)
+    path = os.path.join(report.VERIF, "replays", PID, f"schedule.{mname}.{order_name}.{arrname}.json")
+    json.dump({"property": PID, "how": f"real kernels of stages {SCHED_STAGES} executed thread by thread (single-thread launches of the real compiled kernels) in ascending vs '{order_name}' order from the same Data (stale result arrays from another state); compare {arrname}", "ascending": res[0].tolist(), "other": res[1].tolist()}, open(path, "w"))
+    return (not same), path
+
+  return _rp
+
+
+_old_main = main
+
+
+def main(tier, seed, only=None):
+  global KS
+  KS = generic.all_kernels(with_harvest=False)
+  listed = load_list()
+  names = sorted(n for n in KS if "flex" not in n.lower())
+  if listed is not None and not os.environ.get("C11_ALL"):
+    names = [n for n in names if n in listed]
+  units = [unit_schedule("fork", o) for o in (("rev", "rot", "evenodd") if tier == "thorough" else ("rev", "evenodd"))]
+  units += [unit_kernel(n) for n in names]
+  if only:
+    units = [u for u in units if any(o in u[0] for o in only)]
+  rule = "one evaluation = one SMT query: (kernel units) 'two distinct threads of one launch access the same cell, one of them with a non-atomic write' must be unsat — a disjunction over all pairs of accesses of the two symbolically executed threads; (schedule units) 'a result array of the tree-structured stages differs between two serial thread orders for some stale pre-content' must be unsat"
+  return report.run_check(PID, units, tier, seed, rule=rule, unit_timeout=600 if tier == "quick" else 1800, on_timeout=lambda n: "error" if (n.startswith("schedule/") or (listed and n in listed)) else "skip")
